@@ -196,17 +196,17 @@ def graph_to_pcalg(causal_graph):
         if amat_type == "pag":
             if (
                 clearn_arr[idx, jdx] == CLearnEndpoint.ARROW.value
-                and clearn_arr[jdx, idx] == CLearnEndpoint.NULL.value
+                and clearn_arr[jdx, idx] == CLearnEndpoint.TAIL.value
             ):
                 # ->
                 clearn_arr[idx, jdx] = PCAlgPAGEndpoint.ARROW.value
-                clearn_arr[jdx, idx] = PCAlgPAGEndpoint.NULL.value
+                clearn_arr[jdx, idx] = PCAlgPAGEndpoint.TAIL.value
             elif (
-                clearn_arr[idx, jdx] == CLearnEndpoint.NULL.value
+                clearn_arr[idx, jdx] == CLearnEndpoint.TAIL.value
                 and clearn_arr[jdx, idx] == CLearnEndpoint.ARROW.value
             ):
                 # <-
-                clearn_arr[idx, jdx] = PCAlgPAGEndpoint.NULL.value
+                clearn_arr[idx, jdx] = PCAlgPAGEndpoint.TAIL.value
                 clearn_arr[jdx, idx] = PCAlgPAGEndpoint.ARROW.value
             elif (
                 clearn_arr[idx, jdx] == CLearnEndpoint.ARROW.value
